@@ -110,6 +110,13 @@ class ObserverModels(K.ControlModels):
         q = fr.func.qualname if fr.func is not None else ''
         if q.endswith('SingleObserver.fire') and isinstance(it, VSeq):
             ctx = self.ctx
+            # the state observers see while they are being notified must be the 'mid fire' state the other
+            # methods are verified from: the value is stored before the first observer runs
+            slf = path.heap.get(('l', fr.fid, 'self'))
+            val0 = path.heap.get(('g', 'fire_value'))
+            stored = path.heap.get(('f', slf.oid, '_fired')) if isinstance(slf, VInst) else None
+            ctx.oblige('loop.fire.value_stored_before_any_observer_runs', path, B(val0 is not None and stored is val0),
+                       clause='a request made while the notification is being delivered sees the event as fired (nothing is written after the loss)')
             bp = path.fork()
             i = ex.fresh_int(bp, 'loop_i')
             bp.assume(z3.And(i >= 0, i < z3.Length(it.t)))
